@@ -35,6 +35,8 @@ pub enum ModelParseError {
     StreamNotFound,
     #[error("Position was not found")]
     PositionNotFound,
+    #[error("Position is out of the range of the data section")]
+    PositionOutOfRange,
 
     #[error("USE_GV is true, but positions for GV is not set")]
     UseGvError,
@@ -153,9 +155,12 @@ fn parse_data_section(
                 .stream_win
                 .iter()
                 .map(|win| {
+                    let row = input
+                        .get(win.0..=win.1)
+                        .ok_or(ModelParseError::PositionOutOfRange)?;
                     Ok(
                         all_consuming(terminated(WindowParser::parse_window_row, ParseTarget::sp))
-                            .parse(&input[win.0..=win.1])?
+                            .parse(row)?
                             .1,
                     )
                 })
@@ -183,7 +188,17 @@ where
 {
     use nom::combinator::all_consuming;
 
-    move |input: &'a [u8]| all_consuming(f).parse(&input[range.0..range.1 + 1])
+    move |input: &'a [u8]| match range
+        .1
+        .checked_add(1)
+        .and_then(|end| input.get(range.0..end))
+    {
+        Some(section) => all_consuming(f).parse(section),
+        None => Err(nom::Err::Failure(F::Error::from_error_kind(
+            input,
+            nom::error::ErrorKind::Eof,
+        ))),
+    }
 }
 
 #[cfg(test)]
